@@ -350,3 +350,18 @@ package constraint
 //@   props C02 C04
 //@   maypanic
 //@   ensures panics <==> numberOfChildren > c.value
+
+//@ interface BoolKeeper.Bool(self)
+//@   requires isBoolKeeper(self)
+//@   pure
+//@   ensures result == boolOf(self)
+
+//@ func (Optional).Bool()
+//@   props C01 C02
+//@   implements BoolKeeper.Bool
+//@ func (Nullable).Bool()
+//@   props C01 C02
+//@   implements BoolKeeper.Bool
+//@ func (Const).Bool()
+//@   props C02
+//@   implements BoolKeeper.Bool
